@@ -1,9 +1,28 @@
 package main
 
 import (
+	"bytes"
+	"strings"
+
 	flags "github.com/jessevdk/go-flags"
 )
 
 func (r *runner) runOpMore(p *flags.Parser, op *OpSpec, or *OpResult) {
-	or.Err = "UNKNOWN-OP"
+	switch op.Op {
+	case "ini":
+		ip := flags.NewIniParser(p)
+		ip.ParseAsDefaults = op.Ini.AsDefaults
+		err := ip.Parse(strings.NewReader(l1dec(op.Ini.Text)))
+		or.Err = renderErr(err)
+		or.Ret = "nil"
+	case "writeini":
+		ip := flags.NewIniParser(p)
+		var b bytes.Buffer
+		ip.Write(&b, flags.IniOptions(op.IniOpts))
+		or.Err = "nil"
+		or.Ret = "nil"
+		or.Bytes = hexs(b.String())
+	default:
+		or.Err = "UNKNOWN-OP"
+	}
 }
